@@ -161,7 +161,7 @@ pub async fn preface_accept_tcp(ctx: &ctx::Ctx, listener: &mut zksync_concurrenc
 // Pools, fetch queue, address book, connection admission.
 pub use crate::{
     consensus::verif::VConsensus,
-    gossip::verif::{VAddrsSub, VAddrsWatch, VCompletion, VFetchQueue, VGossip},
+    gossip::verif::{accept_tcp, VAddrsSub, VAddrsWatch, VCompletion, VFetchQueue, VGossip, VTcp},
 };
 
 /// `PoolWatch<u32, u32>`.
